@@ -12,7 +12,7 @@ Section Notify.
   Definition inv_shape (s : state) : Prop :=
     match s.(cst) with CRun _ | CDrop1 => True | _ => s.(cwk) = WIdle end.
 
-  Lemma inv_shape_init inputs ext : inv_shape (init F inputs ext).
+  Lemma inv_shape_init inputs sl ext : inv_shape (init_slow F inputs sl ext).
   Proof. done. Qed.
 
   Lemma step_inv_shape s a s' : inv_shape s -> step F f s a = Some s' -> inv_shape s'.
@@ -25,7 +25,7 @@ Section Notify.
     all: bool_hyps; done.
   Qed.
 
-  Lemma reach_inv_shape inputs ext tr s : run F f (init F inputs ext) tr = Some s -> inv_shape s.
+  Lemma reach_inv_shape inputs sl ext tr s : run F f (init_slow F inputs sl ext) tr = Some s -> inv_shape s.
   Proof. apply run_invariant_all; [apply inv_shape_init|apply step_inv_shape]. Qed.
 
   (* from here on: poll_next REPLACES the stored waker (the code, l.504) *)
@@ -35,7 +35,7 @@ Section Notify.
     (dropped s = false -> is_Some s.(notify) -> s.(pending) = [] /\ s.(closed) = false) /\
     (cons_waiting s = true -> s.(notify) = Some s.(clatest) \/ cons_wake_inflight s = true).
 
-  Lemma inv_notify_init inputs ext : inv_notify (init F inputs ext).
+  Lemma inv_notify_init inputs sl ext : inv_notify (init_slow F inputs sl ext).
   Proof. split; cbn; [by intros _ [? [=]]|done]. Qed.
 
   Lemma step_inv_notify s a s' : inv_notify s -> step F f s a = Some s' -> inv_notify s'.
@@ -54,19 +54,19 @@ Section Notify.
     all: intros H; destruct (Hb H) as [?|?]; [by left|congruence].
   Qed.
 
-  Lemma reach_inv_notify inputs ext tr s : run F f (init F inputs ext) tr = Some s -> inv_notify s.
+  Lemma reach_inv_notify inputs sl ext tr s : run F f (init_slow F inputs sl ext) tr = Some s -> inv_notify s.
   Proof. apply run_invariant_all; [apply inv_notify_init|apply step_inv_notify]. Qed.
 
   (* C12.2, for the LATEST waker *)
-  Theorem consumer_always_woken inputs ext tr s :
-    run F f (init F inputs ext) tr = Some s ->
+  Theorem consumer_always_woken inputs sl ext tr s :
+    run F f (init_slow F inputs sl ext) tr = Some s ->
     (* the consumer returned Pending (or is returning it) and there is something to read *)
     (s.(cst) = CPend \/ s.(cst) = CRun true) -> (s.(pending) <> [] \/ s.(closed) = true) ->
     (* then no waker is sitting in `notify`; the waker of the most recent Pending poll has been called, or it has been
        taken and is about to be called *)
     s.(notify) = None /\ (s.(cwoken) = true \/ cons_wake_inflight s = true).
   Proof.
-    intros Hr Hc Hp. destruct (reach_inv_notify _ _ _ _ Hr) as (Ha & Hb).
+    intros Hr Hc Hp. destruct (reach_inv_notify _ _ _ _ _ Hr) as (Ha & Hb).
     assert (Hd : dropped s = false) by (unfold dropped; destruct Hc as [-> | ->]; done).
     assert (Hn : notify s = None).
     { destruct (notify s) eqn:E; [|done]. destruct (Ha Hd ltac:(eauto)) as [H1 H2]. destruct Hp; congruence. }
